@@ -14,4 +14,14 @@ import NdnGen.C01
 #print axioms Ndn.C01.parse_make_interest_plain
 #print axioms Ndn.Packet.interest_items
 #print axioms Ndn.Packet.parse_interest_value
+#print axioms Ndn.C01.make_interest_is_core_params
+#print axioms Ndn.C01.make_interest_is_core_at
+#print axioms Ndn.C01.make_interest_wire_at
+#print axioms Ndn.C01.make_interest_params_wire_at
+#print axioms Ndn.C01.parse_make_interest_placeholder
+#print axioms Ndn.C01.parse_make_interest_params_placeholder
+#print axioms Ndn.Packet.parseInterest_signed_at
+#print axioms Ndn.Packet.parseInterest_params_at
+#print axioms Ndn.C01.parse_data_value
+#print axioms Ndn.C01.parse_make_data_unsigned
 #print axioms Ndn.Gen.C01.schemas_match
